@@ -67,6 +67,15 @@ func rawRead(fd int) byte {
 	}
 }
 
+func safeSprint(r interface{}) (s string) {
+	defer func() {
+		if recover() != nil {
+			s = fmt.Sprintf("panic value of type %T whose description panics as well", r)
+		}
+	}()
+	return fmt.Sprint(r)
+}
+
 // Task is one simulated caller.
 type Task struct {
 	ID    int
@@ -127,9 +136,20 @@ func DrawSoft(t *tape.Tape, n int) []SoftCfg {
 // under test is unchanged.
 var curTask unsafe.Pointer
 
+// StatementProbe, when set (instrumented builds, single-goroutine runs only), is called between any
+// two statements of the instrumented library: an invariant that is looked at with statement
+// granularity. The probe may call into the library itself (it is not re-entered).
+var StatementProbe func()
+var inStatementProbe bool
+
 // SoftYield is the hook behind verifyield.Y(): a hand-off point between two statements of the
 // instrumented library. Outside a scheduled section it does nothing.
 func SoftYield() {
+	if p := StatementProbe; p != nil && !inStatementProbe {
+		inStatementProbe = true
+		p()
+		inStatementProbe = false
+	}
 	t := (*Task)(atomic.LoadPointer(&curTask))
 	if t == nil {
 		return
@@ -210,7 +230,7 @@ func (s *Sched) Run(fns []func(*Task)) []*Task {
 			func() {
 				defer func() {
 					if r := recover(); r != nil {
-						t.Panic = fmt.Sprint(r)
+						t.Panic = safeSprint(r)
 						t.Stack = string(debug.Stack())
 					}
 				}()
